@@ -233,7 +233,7 @@ def parent_main(a):
         if sc.budget.get(a.tier, 1) == 0:
             continue
         nsh = max(1, sc.shards.get(a.tier, 1))
-        for mode in sc.modes:
+        for mode in _modes(sc, a.tier):
             for s in range(nsh):
                 outp = os.path.join(tmpdir, f"{sc.name}.{mode}.{s}.json")
                 cmd = [sys.executable, "-W", "ignore", "-m", "harness.main", "--child", pid, a.tier,
@@ -276,7 +276,7 @@ def parent_main(a):
     for j in results:
         sc = j["sc"]
         ps = per_sub.setdefault(sc.name, {"evaluations": 0, "nontrivial": set(), "classes": {}, "discards": {},
-                                          "known": {}, "samples": [], "extra": {}, "maxima": {}, "modes": sc.modes,
+                                          "known": {}, "samples": [], "extra": {}, "maxima": {}, "modes": _modes(sc, a.tier),
                                           "shards": 0, "exhaustive": sc.exhaustive, "wall_s": 0.0})
         data = None
         if os.path.exists(j["out"]):
@@ -410,6 +410,13 @@ def parent_main(a):
         eprint("GENERATOR DEGENERATE: fewer than 2 non-trivial cases")
         return 2
     return 0
+
+
+def _modes(sc, tier):
+    m = sc.modes
+    if isinstance(m, dict):
+        return list(m.get(tier) or m.get("quick") or ["jit"])
+    return list(m)
 
 
 def _short(d, n=8):
